@@ -90,7 +90,8 @@ type frame struct {
 	root    ast.Node
 	bind    map[types.Object]ast.Expr
 	up      *frame
-	closure bool // a function literal: the frames above it are its lexical scope
+	closure bool   // a function literal: the frames above it are its lexical scope
+	iter    string // the row of an unrolled table loop this frame stands for
 }
 
 // resolveF follows e through parameter bindings, single-assignment locals and the fields of
@@ -145,6 +146,14 @@ func resolveF(info *types.Info, fr *frame, e ast.Expr, depth int) (ast.Expr, *fr
 			}
 			e, fr = val, bfr
 			continue
+		case *ast.IndexExpr:
+			// a local map (or slice) used as a table: written only as `t[<constant>] = v`, directly or
+			// in a loop over a literal of constants, and read back with a constant key
+			if val, vfr := tableRead(info, fr, v); val != nil {
+				e, fr = val, vfr
+				continue
+			}
+			return e, fr
 		case *ast.CallExpr:
 			// a constructor of the same package: `func newFields(src string) T { return T{..} }`
 			if calleeBody == nil {
@@ -227,6 +236,29 @@ func evalNameF(info *types.Info, fr *frame, e ast.Expr, depth int) form {
 			return norm(append(evalNameF(info, fr, v.X, depth), evalNameF(info, fr, v.Y, depth)...))
 		}
 	case *ast.CallExpr:
+		// strings.Join([]string{a, b, c}, sep) is a + sep + b + sep + c
+		if f := core.CalleeFunc(info, v); f != nil && f.Pkg() != nil && f.Pkg().Path() == "strings" && f.Name() == "Join" && len(v.Args) == 2 {
+			if sep, ok := core.StringConst(info, v.Args[1]); ok {
+				parts, pfr := resolveF(info, fr, v.Args[0], 4)
+				if lit, ok := ast.Unparen(parts).(*ast.CompositeLit); ok {
+					var out form
+					okParts := true
+					for i, el := range lit.Elts {
+						if _, keyed := el.(*ast.KeyValueExpr); keyed {
+							okParts = false
+							break
+						}
+						if i > 0 {
+							out = append(out, seg{lit: sep})
+						}
+						out = append(out, evalNameF(info, pfr, el, depth)...)
+					}
+					if okParts {
+						return norm(out)
+					}
+				}
+			}
+		}
 		if f := core.CalleeFunc(info, v); f != nil && f.Pkg() != nil && f.Pkg().Path() == "fmt" && f.Name() == "Sprintf" && len(v.Args) >= 1 {
 			if fs, ok := core.StringConst(info, v.Args[0]); ok {
 				var out form
@@ -325,7 +357,9 @@ func Run(c *core.Ctx) {
 		}
 		return false
 	}
-	c.Func(pkgUtils, "", "ParseKeyspace")
+	if pk := c.Func(pkgUtils, "", "ParseKeyspace"); pk != nil && pk.Decl.Body != nil {
+		st.keyspace(pk)
+	}
 	if fetch != nil {
 		st.reader(fetch, 1)
 	}
@@ -627,8 +661,58 @@ func (st *state) reader(fn *core.Fn, depth int) {
 			return true
 		}
 		nStride++
-		okStride := pat.Stmt("_i += 2").Match(info, fs.Post, nil) != nil || pat.Stmt("_i = _i + 2").Match(info, fs.Post, nil) != nil
-		c.Check("R4.defaults", "fetchCheckpoint/stride", fs.Pos(), okStride, "HGETALL returns field,value pairs: the scan must advance by 2, otherwise stored values are tested as field names")
+		// the step: a constant, possibly hoisted into a local or written the other way round
+		step, known := int64(0), false
+		if inc, ok := fs.Post.(*ast.IncDecStmt); ok && inc.Tok == token.INC {
+			step, known = 1, true
+		}
+		for _, ps := range []string{"_i += _k", "_i = _i + _k", "_i = _k + _i"} {
+			if b := pat.Stmt(ps).Match(info, fs.Post, nil); b != nil {
+				if ps != "_i += _k" {
+					as := fs.Post.(*ast.AssignStmt)
+					be, _ := ast.Unparen(as.Rhs[0]).(*ast.BinaryExpr)
+					if be == nil || localObj(info, as.Lhs[0]) == nil || localObj(info, b["_i"].(ast.Expr)) != localObj(info, as.Lhs[0]) {
+						continue
+					}
+				}
+				if k, isConst := core.IntConst(info, tt.Resolve(info, body, b["_k"].(ast.Expr), 3)); isConst {
+					step, known = k, true
+				} else if k, isConst := core.IntConst(info, b["_k"].(ast.Expr)); isConst {
+					step, known = k, true
+				}
+			}
+		}
+		if !known {
+			c.Undecidedf("R4.defaults", "fetchCheckpoint/stride", fs.Pos(), "the step `%s` of the scan is not a constant", c.Src(fs.Post))
+			return true
+		}
+		c.Check("R4.defaults", "fetchCheckpoint/stride", fs.Pos(), step == 2, "HGETALL returns field,value pairs: the scan must advance by 2, otherwise stored values are tested as field names")
+		return true
+	})
+	// `for i := range reply { if i%2 != 0 { continue } ... }` visits the same indices
+	core.Inspect(body, func(n ast.Node) bool {
+		rs, ok := n.(*ast.RangeStmt)
+		if !ok || rs.Key == nil || rs.Value != nil || !mentionsValue(rs.Body) || len(rs.Body.List) == 0 {
+			return true
+		}
+		idx := localObj(info, rs.Key)
+		first, ok := rs.Body.List[0].(*ast.IfStmt)
+		if idx == nil || !ok || first.Init != nil || first.Else != nil || len(first.Body.List) != 1 {
+			return true
+		}
+		if br, ok := first.Body.List[0].(*ast.BranchStmt); !ok || br.Tok != token.CONTINUE || br.Label != nil {
+			return true
+		}
+		odd := false
+		for _, ps := range []string{"_i%2 != 0", "_i%2 == 1", "_i&1 != 0", "_i&1 == 1"} {
+			if b := pat.Expr(ps).Match(info, first.Cond, nil); b != nil && localObj(info, b["_i"].(ast.Expr)) == idx {
+				odd = true
+			}
+		}
+		if odd {
+			nStride++
+			c.Okf("R4.defaults", "fetchCheckpoint/stride", rs.Pos(), "the scan skips the odd positions: it visits the field names only")
+		}
 		return true
 	})
 	if nStride == 0 {
@@ -724,6 +808,34 @@ func (st *state) reader(fn *core.Fn, depth int) {
 				}
 				switch e := ast.Unparen(t.expr).(type) {
 				case *ast.BinaryExpr:
+					// strings.Compare(a, b) == 0 / bytes.Compare(a, b) == 0 is a == b
+					if e.Op == token.EQL || e.Op == token.NEQ {
+						var cmp *ast.CallExpr
+						for _, pair := range [][2]ast.Expr{{e.X, e.Y}, {e.Y, e.X}} {
+							if z, isInt := core.IntConst(info, pair[1]); isInt && z == 0 {
+								if call, ok := ast.Unparen(pair[0]).(*ast.CallExpr); ok && len(call.Args) == 2 {
+									if f := core.CalleeFunc(info, call); f != nil && f.Pkg() != nil && (f.Pkg().Path() == "strings" || f.Pkg().Path() == "bytes") && f.Name() == "Compare" {
+										cmp = call
+									}
+								}
+							}
+						}
+						if cmp != nil {
+							if (e.Op == token.EQL) != t.val {
+								continue
+							}
+							other, name := cmp.Args[1], cmp.Args[0]
+							if mentionsName(cmp.Args[1]) {
+								other, name = cmp.Args[0], cmp.Args[1]
+							}
+							if !whole(name) {
+								unknown = true
+								continue
+							}
+							eq = append(eq, evalName(info, body, other, 3))
+							continue
+						}
+					}
 					if (e.Op == token.EQL || e.Op == token.NEQ) && (e.Op == token.EQL) != t.val {
 						continue // "is not this name": an earlier case of a switch / else-if chain, not a selection
 					}
@@ -902,4 +1014,137 @@ func constPart(f form) string {
 		}
 	}
 	return "offset"
+}
+
+// tableRead resolves t[k] for a local table t of the frame: every write to t is `t[c] = v` with c a
+// constant, or `t[x] = v` inside `for _, x := range <literal of constants>`; t is otherwise only
+// read by index. It returns the value written under the constant k, in the frame that binds x.
+func tableRead(info *types.Info, fr *frame, ix *ast.IndexExpr) (ast.Expr, *frame) {
+	base := localObj(info, ix.X)
+	if base == nil || fr == nil || fr.root == nil {
+		return nil, nil
+	}
+	constOf := func(e ast.Expr, f *frame) (string, bool) {
+		r, _ := resolveF(info, f, e, 4)
+		if tv, ok := info.Types[ast.Unparen(r)]; ok && tv.Value != nil {
+			return tv.Value.ExactString(), true
+		}
+		return "", false
+	}
+	key, ok := constOf(ix.Index, fr)
+	if !ok {
+		return nil, nil
+	}
+	var val ast.Expr
+	var vfr *frame
+	n := 0
+	okUses := true
+	var stack []ast.Node
+	ast.Inspect(fr.root, func(m ast.Node) bool {
+		if m == nil {
+			stack = stack[:len(stack)-1]
+			return true
+		}
+		stack = append(stack, m)
+		id, isId := m.(*ast.Ident)
+		if !isId || core.ObjOf(info, id) != base || len(stack) < 2 {
+			return true
+		}
+		switch par := stack[len(stack)-2].(type) {
+		case *ast.IndexExpr:
+			if par.X != ast.Expr(id) {
+				okUses = false
+				return true
+			}
+			// a write?
+			if len(stack) >= 3 {
+				if as, isAs := stack[len(stack)-3].(*ast.AssignStmt); isAs {
+					for i, l := range as.Lhs {
+						if l != ast.Expr(par) {
+							continue
+						}
+						if len(as.Lhs) != len(as.Rhs) || as.Tok != token.ASSIGN {
+							okUses = false
+							return true
+						}
+						if k, isConst := constOf(par.Index, fr); isConst {
+							if k == key {
+								val, vfr = as.Rhs[i], fr
+								n++
+							}
+							return true
+						}
+						// t[x] = v in a loop over a literal
+						var rng *ast.RangeStmt
+						for j := len(stack) - 4; j >= 0; j-- {
+							if r, isRange := stack[j].(*ast.RangeStmt); isRange {
+								rng = r
+								break
+							}
+						}
+						if rng == nil {
+							okUses = false
+							return true
+						}
+						rows, v := literalRows(info, fr, rng)
+						if rows == nil || localObj(info, par.Index) != v {
+							okUses = false
+							return true
+						}
+						for k, row := range rows {
+							if rk, isConst := constOf(row, fr); isConst && rk == key {
+								val = as.Rhs[i]
+								vfr = &frame{root: fr.root, bind: map[types.Object]ast.Expr{v: row}, up: fr, closure: true, iter: fmt.Sprintf("#%d", k)}
+								n++
+							} else if !isConst {
+								okUses = false
+							}
+						}
+					}
+				}
+				if u, isU := stack[len(stack)-3].(*ast.UnaryExpr); isU && u.Op == token.AND {
+					okUses = false
+				}
+			}
+		case *ast.AssignStmt, *ast.ValueSpec:
+			// the definition of the table itself
+			if as, isAs := par.(*ast.AssignStmt); isAs {
+				for i, l := range as.Lhs {
+					if l == ast.Expr(id) && len(as.Lhs) == len(as.Rhs) {
+						switch r := ast.Unparen(as.Rhs[i]).(type) {
+						case *ast.CompositeLit:
+							if len(r.Elts) != 0 {
+								okUses = false
+							}
+						case *ast.CallExpr:
+							if f, isId := r.Fun.(*ast.Ident); !isId || f.Name != "make" {
+								okUses = false
+							}
+						default:
+							okUses = false
+						}
+					}
+				}
+				for _, r := range as.Rhs {
+					if r == ast.Expr(id) {
+						okUses = false
+					}
+				}
+			}
+		case *ast.RangeStmt, *ast.CallExpr:
+			if c, isCall := par.(*ast.CallExpr); isCall {
+				if f, isId := c.Fun.(*ast.Ident); isId && (f.Name == "len" || f.Name == "cap") {
+					return true
+				}
+			}
+			okUses = false
+		default:
+			okUses = false
+		}
+		return true
+	})
+	if !okUses || n != 1 {
+		return nil, nil
+	}
+	return val, vfr
 }
